@@ -340,6 +340,10 @@ impl<'a> Harness for T1Harness<'a> {
             }
             vs.push((format!("{}.panic", self.prop), p.split(':').nth(1).unwrap_or("").trim().chars().take(60).collect(), format!("panic: {}", p)));
         }
+        let inv = h2::verif::lock_order::take_local_inversions();
+        if inv > 0 {
+            vs.push((format!("{}.lock-order", self.prop), "inversion".into(), format!("{} acquisition(s) of h2's internal mutexes out of order (stream state before send buffer, neither twice): two threads doing this can deadlock", inv)));
+        }
         let choices: Vec<u32> = trace.iter().map(|p| p.c).collect();
         let violations = vs.into_iter().map(|(rule, signature, what)| Violation { rule, signature, what, replay: self.replay_json(&choices) }).collect();
         let counters = mech_counters(&t);
